@@ -297,6 +297,7 @@ def main():
           % (pid, tier, po['discharged'], po['obligations'], len(cases), stats['agree'], stats['inconclusive'], stats['disagreements'],
              stats['intrinsic_failures'], stats['crashes'], wall))
     if violations:
+        violations.sort(key=lambda v: v[1] != '')      # violations with a failing input first
         seenp = set()
         for path, suffix in violations[:10]:
             if path in seenp:
